@@ -208,7 +208,30 @@ def run(prog, rep):
         rep.ob("C05.2", f_, "slot:cleared", okcl, "the handle taken from the library slot and unref'ed is removed from the slot on the same path" if okcl else
                "line %d: the handle read from the library TLS slot is unref'ed but stays in the slot: when this thread ends, the slot's destructor drops the same reference "
                "a second time (the handle is released while a reference is held, or freed memory is decremented)" % line(unrefs[0][2]), unrefs[0][2])
-    rep.floor("C05.2", 5 + 1)
+    # once the native thread exists it holds the handle (argument of its start routine, library TLS slot): from then on the handle
+    # goes away only through p_uthread_unref.  (a) the native release function is reached from unref alone; (b) the creating function
+    # hands the started handle to no releasing call, whatever fails afterwards (a name copy that cannot be allocated gives an unnamed
+    # thread, not a freed one)
+    frel = [(f.name, line(c)) for f in list(u.roots()) + list(pu.roots()) for (b, i, c) in f.calls() if c.get("callee") == "p_uthread_free_internal"]
+    oka = bool(frel) and all(fn_ == "p_uthread_unref" for (fn_, ln_) in frel)
+    rep.ob("C05.2", u.fn("p_uthread_unref"), "release:only-unref", oka, "p_uthread_free_internal is reached from p_uthread_unref only" if oka else
+           "p_uthread_free_internal is called from %s: a handle is released outside the reference protocol" % sorted(set("%s (line %d)" % x for x in frel if x[0] != "p_uthread_unref")), u.fn("p_uthread_unref").loc[0])
+    hv = None
+    for (b, i, n) in cf.nodes(elsewhere=True):
+        if n["k"] == "asg" and strip_casts(n["l"]) is not None and strip_casts(n["l"])["k"] == "ref" and strip_casts(n["r"]) is not None and strip_casts(n["r"])["k"] == "call" \
+                and strip_casts(n["r"]).get("callee") == "p_uthread_create_internal":
+            hv = strip_casts(n["l"])["name"]
+    badrel = []
+    if hv is not None:
+        hs = cf.copies_of(hv)
+        for (b, i, c) in cf.calls():
+            if c.get("callee") in ("p_free", "p_uthread_free_internal", "p_uthread_unref") and c.get("args") and root_var(c["args"][0]) in hs and strip_casts(c["args"][0])["k"] == "ref":
+                badrel.append(c)
+    rep.ob("C05.2", cf, "started:kept", hv is not None and not badrel, "the creating function never releases the handle of a started thread" if (hv is not None and not badrel) else
+           ("line %d: %s releases the handle after p_uthread_create_internal started the native thread with it: the new thread is parked on the creation spinlock with that "
+            "object as its argument and in its TLS slot, and runs on freed memory" % (line(badrel[0]), badrel[0].get("callee")) if badrel else "the call of p_uthread_create_internal was not found"),
+           badrel[0] if badrel else cf.loc[0])
+    rep.floor("C05.2", 5 + 1 + 2)
 
     # ---- C05.3 ---------------------------------------------------------------------
     jn = u.fn("p_uthread_join").inlined()
@@ -316,7 +339,13 @@ def run(prog, rep):
     st_join = [n for (b, i, f, n) in stores_in(cf) if f == "joinable"]
     okjn = len(st_join) == 1 and root_var(st_join[0]["r"]) == cf.param_names()[2]
     rep.ob("C05.3", cf, "joinable", okjn, "the handle records the joinable argument" if okjn else "the joinable flag of the handle is not the caller's argument", cf.loc[0])
-    rep.floor("C05.3", 6)
+    # the native thread id is consumed once: by pthread_join for a joinable handle; a detached one was created detached.  No
+    # pthread_detach afterwards - after a join the id is dead and glibc reuses it for the next thread, which would be detached instead
+    dets = [(f, c) for f in pu.roots() for (b, i, c) in f.calls() if c.get("callee") == "pthread_detach"]
+    rep.ob("C05.3", pu.fn("p_uthread_free_internal"), "native:no-detach", not dets, "the library never calls pthread_detach: detach state is fixed at creation" if not dets else
+           "line %d: %s calls pthread_detach on a handle's native id: for a handle that was already joined the id is dead (and reused by the next thread the process creates), "
+           "so a later thread is detached behind its owner's back and its join returns at once with code 0" % (line(dets[0][1]), dets[0][0].name), dets[0][1] if dets else pu.fn("p_uthread_free_internal").loc[0])
+    rep.floor("C05.3", 7)
 
     # ---- C05.4 ---------------------------------------------------------------------
     indirect = {}
@@ -490,6 +519,10 @@ SELFTEST = [
          old="\tp_uthread_wait_internal (thread);\n\n\treturn base_thread->ret_code;", new="\t{ pint code = base_thread->ret_code; p_uthread_wait_internal (thread); return code; }"),
     dict(id="detach-state-arms-swapped", file="src/puthread-posix.c", expect="C05.3",
          old="joinable ? PTHREAD_CREATE_JOINABLE\n\t\t\t\t\t\t\t      : PTHREAD_CREATE_DETACHED", new="joinable ? PTHREAD_CREATE_DETACHED\n\t\t\t\t\t\t\t      : PTHREAD_CREATE_JOINABLE"),
+    dict(id="free-internal-detaches", file="src/puthread-posix.c", expect="C05.3",
+         old="p_uthread_free_internal (PUThread *thread)\n{\n", new="p_uthread_free_internal (PUThread *thread)\n{\n\tif (thread->base.joinable == TRUE)\n\t\tpthread_detach (thread->hdl);\n\n"),
+    dict(id="create-full-frees-started-handle", file="src/puthread.c", expect="C05.2",
+         old="\t\tbase_thread->name      = p_strdup (name);\n\t}\n", new="\t\tbase_thread->name      = p_strdup (name);\n\n\t\tif (name != NULL && base_thread->name == NULL) {\n\t\t\tp_uthread_free_internal ((PUThread *) base_thread);\n\t\t\tbase_thread = NULL;\n\t\t}\n\t}\n"),
     dict(id="join-detached", file="src/puthread.c", expect="C05.3",
          old="\tif (base_thread->joinable == FALSE)\n\t\treturn -1;\n\n\tp_uthread_wait_internal (thread);", new="\tp_uthread_wait_internal (thread);"),
     dict(id="exit-code-after-native-exit", file="src/puthread.c", expect="C05.3",
